@@ -444,3 +444,7 @@ Definition time_lt (a b : xtime) : bool := pn_ltb (time_timeline a) (time_timeli
 Definition time_eq (a b : xtime) : bool := pn_eqb (time_timeline a) (time_timeline b).
 Definition datetime_lt (a b : xdatetime) : bool := pn_ltb (datetime_timeline a) (datetime_timeline b).
 Definition datetime_eq (a b : xdatetime) : bool := pn_eqb (datetime_timeline a) (datetime_timeline b).
+
+(* XmlDuration / XmlPeriod are UserStrings: the value keeps value.strip() and str() returns it *)
+Definition duration_str (s : str) : option str := option_map (fun _ => py_strip s) (duration_parse s).
+Definition period_str (s : str) : option str := option_map (fun _ => py_strip s) (period_parse s).
